@@ -377,7 +377,7 @@ static void pump_obligations(void)
 /* =====================================================================================
  * C20: iv_inotify
  * ===================================================================================== */
-#define NQ 1024
+#define NQ 8192	/* more than one 64 KiB read can hold */
 struct irec { int wd; uint32_t mask, cookie, len; char name[48]; };
 struct iq { struct irec r[NQ]; int head, tail; };
 static struct iq *IQ[MAXOBJ];
@@ -761,8 +761,14 @@ int ext4_op(struct rthr *th, const struct pop *op)
 {
 	(void)th;
 	if (op->op == OP_FSOP) {
+		long rep = op->b > 1 ? (long)op->b : 1, k;
+		int r = 0;
 		simk_log(101, OP_FSOP, op->d * 16 + op->a);
-		return fsop((int)op->d, (int)op->a);
+		for (k = 0; k < rep; k++)	/* a repeat count makes bursts that overflow the kernel's event queue */
+			r = fsop((int)op->d, (int)op->a);
+		if (rep > 1)
+			PROBE[PR_INOT_FLOOD]++;
+		return r;
 	}
 	return 0;
 }
